@@ -185,6 +185,212 @@ struct Job {
   form: &'static str,
   case: Value,
   src: String,
+  /// multi-module rendering: (which side is foreign-by-inference: 'A' the other universe, 'B' the case's universe; the
+  /// derivation of the other universe: 2 = wider, 3 = narrower)
+  mm: Option<(char, u8)>,
+}
+
+/// The universe `decls` with the same class names and other variant tables: `wider` — every enum has one more (nullary)
+/// variant `Zz`; narrower — every enum with two or more variants loses its last one and every remaining variant that
+/// carries data carries one more `int`.
+fn derive_decls(decls: &Value, wider: bool) -> Value {
+  let mut out = decls.clone();
+  for (_, d) in out.as_object_mut().unwrap() {
+    if d["kind"] != "enum" {
+      continue;
+    }
+    let vs = d["vs"].as_array_mut().unwrap();
+    if wider {
+      vs.push(json!({"n": "Zz", "a": [], "f": []}));
+    } else {
+      if vs.len() >= 2 {
+        vs.pop();
+      }
+      for v in vs.iter_mut() {
+        let a = v["a"].as_array_mut().unwrap();
+        if !a.is_empty() {
+          a.push(json!({"c": "int", "ta": []}));
+        }
+      }
+    }
+  }
+  out
+}
+
+/// `class Acc<tag>` of a universe module: a function `get<C>(): C<int, ..>` per class and `root(): <root>`
+fn accessor_text(decls: &Value, root: &str, tag: char) -> String {
+  let mut t = format!("class Acc{tag} {{\n  function root(): {root} = Process.panic(\"never\")\n");
+  for (name, d) in decls.as_object().unwrap() {
+    t.push_str(&format!("  function get{name}(): {} = Process.panic(\"never\")\n", instance_text(name, d)));
+  }
+  t.push_str("}\n");
+  t
+}
+
+fn instance_text(name: &str, d: &Value) -> String {
+  let n = d["tp"].as_array().unwrap().len();
+  if n == 0 {
+    name.to_string()
+  } else {
+    format!("{name}<{}>", vec!["int"; n].join(", "))
+  }
+}
+
+/// for every enum class of `decls`: (class name, the arms of a match that names each variant exactly once)
+fn full_matches(decls: &Value) -> Vec<(String, String)> {
+  let mut out = vec![];
+  for (name, d) in decls.as_object().unwrap() {
+    if d["kind"] != "enum" {
+      continue;
+    }
+    let arms: Vec<String> = d["vs"]
+      .as_array()
+      .unwrap()
+      .iter()
+      .map(|v| {
+        let k = v["a"].as_array().unwrap().len();
+        let n = v["n"].as_str().unwrap();
+        if k == 0 {
+          format!("{n} -> 0")
+        } else {
+          format!("{n}({}) -> 0", vec!["_"; k].join(", "))
+        }
+      })
+      .collect();
+    out.push((name.clone(), arms.join(", ")));
+  }
+  out
+}
+
+/// Type-checks the multi-module rendering of `jobs` (all of one `mm` kind): module U1 holds the universe, U2 / U3 a
+/// derived universe with the same class names, the third module the cases.  Every case function first matches on a value
+/// of every enum of the OTHER universe (each variant named once: exhaustive, no useless arm) and then performs the case's
+/// match.  Kind 'A': U1's classes are imported by name (the scrutinee is a parameter), the other universe's values come
+/// from its accessor class (types by inference only).  Kind 'B': the other universe's classes are imported by name and
+/// the case's scrutinee is `AccA.root()`.
+fn check_batch_mm(decls: &Value, root: &str, kind: (char, u8), jobs: &[Job]) -> Result<(Vec<Obs>, usize), String> {
+  let other = derive_decls(decls, kind.1 == 2);
+  let other_tag = if kind.1 == 2 { 'B' } else { 'C' };
+  let other_mod = format!("U{}", kind.1);
+  let module_text = |d: &Value, tag: char, r: &str| {
+    let mut t = decls_text(d).join("\n");
+    t.push('\n');
+    t.push_str(&accessor_text(d, r, tag));
+    t
+  };
+  let names = |d: &Value| d.as_object().unwrap().keys().cloned().collect::<Vec<_>>().join(", ");
+  let prelude = full_matches(&other);
+  let mut lines: Vec<String> = vec![];
+  let mut owner: Vec<Option<(usize, bool)>> = vec![];
+  let params: String;
+  if kind.0 == 'A' {
+    lines.push(format!("import {{ {} }} from U1", names(decls)));
+    lines.push(format!("import {{ Acc{other_tag} }} from {other_mod}"));
+    params = format!("s: {root}");
+  } else {
+    lines.push(format!("import {{ {} }} from {other_mod}", names(&other)));
+    lines.push("import { AccA } from U1".to_string());
+    params = prelude
+      .iter()
+      .enumerate()
+      .map(|(i, (c, _))| format!("q{i}: {}", instance_text(c, &other[c.as_str()])))
+      .collect::<Vec<_>>()
+      .join(", ");
+  }
+  lines.push("class Cases {".to_string());
+  owner.resize(lines.len(), None);
+  for (ji, j) in jobs.iter().enumerate() {
+    lines.push(format!("  function c{}({params}): int = {{", j.id));
+    owner.push(Some((ji, false)));
+    for (i, (c, arms)) in prelude.iter().enumerate() {
+      let scrutinee = if kind.0 == 'A' { format!("Acc{other_tag}.get{c}()") } else { format!("q{i}") };
+      lines.push(format!("    let _ = match {scrutinee} {{ {arms} }};"));
+      owner.push(Some((ji, false)));
+    }
+    lines.push(format!("    {}", j.src));
+    owner.push(Some((ji, true)));
+    lines.push("  }".to_string());
+    owner.push(Some((ji, false)));
+  }
+  lines.push("}".to_string());
+  owner.push(None);
+  let cases_text = lines.join("\n") + "\n";
+  let mut heap = Heap::new();
+  let mut error_set = samlang_errors::ErrorSet::new();
+  let mut sources = HashMap::new();
+  let texts = [
+    ("U1".to_string(), module_text(decls, 'A', root)),
+    (other_mod.clone(), module_text(&other, other_tag, "int")),
+    ("Cases".to_string(), cases_text),
+  ];
+  let mut cases_ref = None;
+  for (n, t) in &texts {
+    let m = heap.alloc_module_reference_from_string_vec(vec![n.clone()]);
+    sources.insert(m, t.clone());
+    if n == "Cases" {
+      cases_ref = Some(m);
+    }
+  }
+  let cases_ref = cases_ref.unwrap();
+  let r = guarded(|| {
+    let mut parsed = HashMap::new();
+    for (m, t) in &sources {
+      parsed.insert(*m, samlang_parser::parse_source_module_from_text(t, *m, &mut heap, &mut error_set));
+    }
+    let _ = samlang_checker::type_check_sources(&parsed, &mut error_set);
+  });
+  r?;
+  let mut obs: Vec<Obs> =
+    jobs.iter().map(|_| Obs { nonexh: false, cextext: String::new(), useless: false, panic: String::new() }).collect();
+  let mut prelude_diags = 0usize;
+  for e in error_set.errors() {
+    let msg = e.to_ide_format(&heap, &sources).ide_error;
+    let own = if e.location.module_reference == cases_ref { owner.get(e.location.start.0 as usize).copied().flatten() } else { None };
+    let Some((idx, is_case)) = own else {
+      eprintln!("patterns-replay: diagnostic outside the generated cases: {} {}", e.location.pretty_print(&heap), msg);
+      std::process::exit(2);
+    };
+    if !is_case {
+      // a diagnostic about a match of the prelude (exhaustive and without useless arm by construction): not what the
+      // case records; counted and shown, never mixed into the case's observation
+      if matches!(&e.detail, ErrorDetail::NonExhaustiveMatch { .. } | ErrorDetail::UselessPattern { .. }) {
+        prelude_diags += 1;
+        if prelude_diags <= 3 {
+          eprintln!("patterns-replay: NOTE diagnostic on a prelude match (each variant named once): {} {}", e.location.pretty_print(&heap), msg);
+        }
+        continue;
+      }
+      eprintln!("patterns-replay: generator produced a module with another diagnostic: {} {}", e.location.pretty_print(&heap), msg);
+      std::process::exit(2);
+    }
+    record_diagnostic(&e.detail, &msg, &mut obs[idx], &jobs[idx].src, &e.location.pretty_print(&heap));
+  }
+  Ok((obs, prelude_diags))
+}
+
+fn record_diagnostic(detail: &ErrorDetail, msg: &str, obs: &mut Obs, src: &str, at: &str) {
+  match detail {
+    ErrorDetail::NonExhaustiveMatch { .. } => {
+      let Some(p) = msg.find(NONEXH_PREFIX) else {
+        eprintln!("patterns-replay: unexpected text of the non-exhaustive diagnostic: {msg}");
+        std::process::exit(2);
+      };
+      let rest = &msg[p + NONEXH_PREFIX.len()..];
+      let end = rest.rfind('`').unwrap_or(rest.len());
+      if obs.nonexh {
+        eprintln!("patterns-replay: two non-exhaustive diagnostics for one case: {src}");
+        std::process::exit(2);
+      }
+      obs.nonexh = true;
+      obs.cextext = rest[..end].to_string();
+    }
+    ErrorDetail::UselessPattern { only_pattern: true } => obs.useless = true,
+    _ => {
+      // anything else means the generated module is not what the property quantifies over
+      eprintln!("patterns-replay: generator produced a module with another diagnostic: {at} {msg}\n  {src}");
+      std::process::exit(2);
+    }
+  }
 }
 
 struct Obs {
@@ -232,33 +438,7 @@ fn check_batch(header: &[String], jobs: &[Job]) -> Result<Vec<Obs>, String> {
       eprintln!("patterns-replay: diagnostic outside the generated cases: {} {}", e.location.pretty_print(&heap), msg);
       std::process::exit(2);
     }
-    match &e.detail {
-      ErrorDetail::NonExhaustiveMatch { .. } => {
-        let Some(p) = msg.find(NONEXH_PREFIX) else {
-          eprintln!("patterns-replay: unexpected text of the non-exhaustive diagnostic: {msg}");
-          std::process::exit(2);
-        };
-        let rest = &msg[p + NONEXH_PREFIX.len()..];
-        let end = rest.rfind('`').unwrap_or(rest.len());
-        if obs[idx].nonexh {
-          eprintln!("patterns-replay: two non-exhaustive diagnostics for one case: {}", jobs[idx].src);
-          std::process::exit(2);
-        }
-        obs[idx].nonexh = true;
-        obs[idx].cextext = rest[..end].to_string();
-      }
-      ErrorDetail::UselessPattern { only_pattern: true } => obs[idx].useless = true,
-      _ => {
-        // anything else means the generated module is not what the property quantifies over
-        eprintln!(
-          "patterns-replay: generator produced a module with another diagnostic: {} {}\n  {}",
-          e.location.pretty_print(&heap),
-          msg,
-          jobs[idx].src
-        );
-        std::process::exit(2);
-      }
-    }
+    record_diagnostic(&e.detail, &msg, &mut obs[idx], &jobs[idx].src, &e.location.pretty_print(&heap));
   }
   Ok(obs)
 }
@@ -271,7 +451,10 @@ pub fn replay(args: &[String]) {
   let f = std::io::BufReader::new(std::fs::File::open(&cases).expect("cases file"));
   let mut header: Vec<String> = vec![];
   let mut root = String::new();
+  let mut decls = Value::Null;
   let mut jobs: Vec<Job> = vec![];
+  let mut mm_jobs: Vec<Job> = vec![];
+  let mut case_no = 0usize;
   for line in f.lines() {
     let line = line.unwrap();
     if line.trim().is_empty() {
@@ -281,6 +464,7 @@ pub fn replay(args: &[String]) {
     if v.get("decls").is_some() {
       header = decls_text(&v["decls"]);
       root = type_text(&v["root"]);
+      decls = v["decls"].clone();
       continue;
     }
     assert!(!root.is_empty(), "the universe line must come first");
@@ -296,6 +480,7 @@ pub fn replay(args: &[String]) {
         arm_texts.iter().map(|a| format!("{a} -> 0")).collect::<Vec<_>>().join(", ")
       ),
       case: v.clone(),
+      mm: None,
     });
     // the same match as an argument of a generic call whose type parameter is being inferred, with arm bodies that
     // are calls (the checker types such an argument in its synthesis pass): every fourth case
@@ -309,6 +494,7 @@ pub fn replay(args: &[String]) {
           arm_texts.iter().map(|a| format!("{a} -> Cases.one()")).collect::<Vec<_>>().join(", ")
         ),
         case: v.clone(),
+        mm: None,
       });
     }
     if arms.len() == 1 {
@@ -318,6 +504,7 @@ pub fn replay(args: &[String]) {
         form: "let",
         src: format!("  function c{id}(s: {root}): int = {{ let {} = s; 0 }}", arm_texts[0]),
         case: v.clone(),
+        mm: None,
       });
       let id = jobs.len();
       jobs.push(Job {
@@ -325,8 +512,41 @@ pub fn replay(args: &[String]) {
         form: "iflet",
         src: format!("  function c{id}(s: {root}): int = if let {} = s {{ 1 }} else {{ 0 }}", arm_texts[0]),
         case: v.clone(),
+        mm: None,
       });
     }
+    // the multi-module rendering (same-named classes with other variant tables in another module, reached by inference
+    // only): every fifth arm list as a match, every one-arm list as a let and an if-let; the kinds rotate
+    let kind = (if (case_no / 5) % 2 == 0 { 'A' } else { 'B' }, if (case_no / 10) % 2 == 0 { 2u8 } else { 3u8 });
+    let scrutinee = if kind.0 == 'A' { "s" } else { "AccA.root()" };
+    if case_no % 5 == 0 {
+      mm_jobs.push(Job {
+        id: 0,
+        form: "match",
+        src: format!("match {scrutinee} {{ {} }}", arm_texts.iter().map(|a| format!("{a} -> 0")).collect::<Vec<_>>().join(", ")),
+        case: v.clone(),
+        mm: Some(kind),
+      });
+    }
+    if arms.len() == 1 {
+      let kind = (if case_no % 2 == 0 { 'A' } else { 'B' }, if (case_no / 2) % 2 == 0 { 2u8 } else { 3u8 });
+      let scrutinee = if kind.0 == 'A' { "s" } else { "AccA.root()" };
+      mm_jobs.push(Job { id: 0, form: "let", src: format!("let {} = {scrutinee}; 0", arm_texts[0]), case: v.clone(), mm: Some(kind) });
+      mm_jobs.push(Job {
+        id: 0,
+        form: "iflet",
+        src: format!("if let {} = {scrutinee} {{ 1 }} else {{ 0 }}", arm_texts[0]),
+        case: v.clone(),
+        mm: Some(kind),
+      });
+    }
+    case_no += 1;
+  }
+  // the multi-module jobs follow the single-module ones, grouped by kind (one set of modules per group)
+  mm_jobs.sort_by_key(|j| j.mm);
+  for mut j in mm_jobs {
+    j.id = jobs.len();
+    jobs.push(j);
   }
   let mut w = std::io::BufWriter::new(std::fs::File::create(&out).expect("out file"));
   let mut dump = arg(args, "--dump-src").map(|p| std::fs::File::create(p).unwrap());
@@ -335,15 +555,33 @@ pub fn replay(args: &[String]) {
       writeln!(d, "{l}").unwrap();
     }
   }
-  let (mut n_nonexh, mut n_useless, mut n_panic) = (0usize, 0usize, 0usize);
-  for chunk in jobs.chunks(batch) {
-    let obs = match check_batch(&header, chunk) {
+  let (mut n_nonexh, mut n_useless, mut n_panic, mut n_prelude) = (0usize, 0usize, 0usize, 0usize);
+  // chunks never mix the single-module jobs and the kinds of multi-module jobs
+  let mut chunks: Vec<&[Job]> = vec![];
+  let mut from = 0;
+  for i in 1..=jobs.len() {
+    if i == jobs.len() || jobs[i].mm != jobs[from].mm || i - from == batch {
+      chunks.push(&jobs[from..i]);
+      from = i;
+    }
+  }
+  let mut run = |js: &[Job]| -> Result<Vec<Obs>, String> {
+    match js[0].mm {
+      None => check_batch(&header, js),
+      Some(kind) => check_batch_mm(&decls, &root, kind, js).map(|(o, n)| {
+        n_prelude += n;
+        o
+      }),
+    }
+  };
+  for chunk in chunks {
+    let obs = match run(chunk) {
       Ok(o) => o,
       Err(_) => {
         // the checker panicked somewhere in the batch: find the cases one by one
         let mut all = vec![];
         for j in chunk {
-          match check_batch(&header, std::slice::from_ref(j)) {
+          match run(std::slice::from_ref(j)) {
             Ok(mut o) => all.push(o.pop().unwrap()),
             Err(msg) => all.push(Obs { nonexh: false, cextext: String::new(), useless: false, panic: msg }),
           }
@@ -363,7 +601,16 @@ pub fn replay(args: &[String]) {
         "id": j.id, "u": j.case["u"], "form": j.form, "arms": j.case["arms"],
         "exp": {"exh": j.case["exh"], "irr": j.case["irr"]},
         "obs": {"nonexh": o.nonexh, "cex": cex, "cextext": o.cextext, "useless": o.useless, "panic": o.panic},
-        "src": j.src.trim(),
+        "src": match j.mm {
+          None => j.src.trim().to_string(),
+          Some((k, o)) => format!(
+            "[modules U1 + U{o} ({}); the case's scrutinee is {}] {}",
+            if o == 2 { "same classes, every enum one variant more" } else { "same classes, every enum one variant less and one int more per payload" },
+            if k == 'A' { "a parameter, the other universe's values are typed by inference" } else { "U1's accessor (typed by inference), the other universe is imported by name" },
+            j.src
+          ),
+        },
+        "mm": j.mm.map(|(k, o)| format!("{k}{o}")).unwrap_or_default(),
       });
       writeln!(w, "{rec}").unwrap();
     }
@@ -371,6 +618,7 @@ pub fn replay(args: &[String]) {
   w.flush().unwrap();
   println!(
     "{}",
-    json!({"records": jobs.len(), "nonexhaustive": n_nonexh, "useless": n_useless, "panics": n_panic})
+    json!({"records": jobs.len(), "nonexhaustive": n_nonexh, "useless": n_useless, "panics": n_panic,
+           "multi_module_records": jobs.iter().filter(|j| j.mm.is_some()).count(), "prelude_diagnostics": n_prelude})
   );
 }
